@@ -9,6 +9,7 @@ git -C /repo worktree add -q --detach "$wt" HEAD || exit 2
 trap 'git -C /repo worktree remove --force "$wt"; git -C /repo worktree prune' EXIT
 fail=0
 for d in seeded/${1:-}*/; do
+  [ -f "$d/meta.json" ] || continue
   n=$(basename $d)
   checks=$(python3 -c "import json;print(' '.join(json.load(open('$d/meta.json'))['detected_by']))")
   git -C "$wt" apply "$PWD/$d/patch.diff" || { echo "$n -> patch does not apply"; fail=1; continue; }
